@@ -5,6 +5,8 @@ from typing import Any, Callable, Dict
 from icv import callcheck as C
 from icv import families as F
 from icv.checks_call import call_unit, random_unit
+from icv import def_families as DF
+from icv.checks_def import def_unit
 from icv.result import CheckResult
 
 CHECKS = {}  # type: Dict[str, Callable[[CheckResult], None]]
@@ -33,6 +35,9 @@ def c01(res: CheckResult) -> None:
     call_unit(res, "pre-gate (9 kinds x 9 shapes x truth x around x sync/async x error forms)",
               list(F.fam_pre(res.tier, rng)), ic, require_outcomes=["ret", "Violation"])
     random_unit(res, "random programs beyond the exhaustive bounds", list(F.fam_random(res.tier, rng, "pre")), ic)
+    def_unit(res, "inherited precondition groups incl. overrides under foreign decorators: calls judged against the "
+                  "effective DNF for all truth assignments", list(DF.fam_foreign_hier(res.tier, rng)), ic,
+             verdicts=True, rng=rng)
 
 
 @check("C10")
@@ -55,6 +60,9 @@ def c02(res: CheckResult) -> None:
     call_unit(res, "post-gate (kinds x stacks of 0..3 x truth x body outcomes incl. BaseException x sync/async)",
               list(F.fam_post(res.tier, rng)), ic, require_outcomes=["ret", "Violation", "KI", "Exception"])
     random_unit(res, "random programs beyond the exhaustive bounds", list(F.fam_random(res.tier, rng, "post")), ic)
+    def_unit(res, "inherited postconditions incl. overrides under foreign decorators: calls judged against the "
+                  "effective conjunction for all truth assignments", list(DF.fam_foreign_hier(res.tier, rng)), ic,
+             verdicts=True, rng=rng)
 
 
 @check("C08")
